@@ -857,3 +857,56 @@ func msScenarioOracle(sc msScenario, run msRun) (string, string) {
 	}
 	return "", ""
 }
+
+// ---------- overwrite families ----------
+// For every keyed table of the stores (committed offset + metadata, next offset, topic
+// config, consumer group, partition count) a systematic write / overwrite history on ONE
+// key, with a full read-back after every write: value -> different value, value ->
+// zero/empty value, zero -> value, same value again, delete -> read -> re-create.
+func msGenOverwrite(r *vRand) (int, []msOp) {
+	t := []string{"orders", "a.b", "t1"}[r.Intn(3)]
+	g := []string{"g1", "a:b", "grp"}[r.Intn(3)]
+	p := int32(r.Range(0, 1))
+	ops := []msOp{{K: "ct", Topic: t, N: 2, RF: 1}}
+	reads := func() {
+		ops = append(ops, msOp{K: "fo", Group: g, Topic: t, Part: p}, msOp{K: "lo", Group: g, Topic: t, Part: p}, msOp{K: "ls"},
+			msOp{K: "no", Topic: t, Part: p}, msOp{K: "fc", Topic: t}, msOp{K: "fg", Group: g}, msOp{K: "lg"}, msOp{K: "md", Names: []string{t}})
+	}
+	metas := []string{"checkpoint-a", "", "b", "", "checkpoint-a"}
+	offs := []int64{9, 9, 0, 5, 0}
+	fullGroup := func(gen int32) *msGroup {
+		return &msGroup{ID: g, State: "stable", PType: "consumer", Proto: "range", Leader: "m0", Gen: gen, Rebalance: 45000,
+			Members: []msMember{{ID: "m0", Client: "c", Host: "/h", HB: "hb", Session: 20000, Subs: []string{t}, Assign: []msAssign{{Topic: t, Parts: []int32{0, 1}}}},
+				{ID: "m1", Client: "d", Host: "/h", HB: "hb", Session: 10000, Subs: []string{t}, Assign: []msAssign{}}}}
+	}
+	emptyGroup := &msGroup{ID: g, Members: []msMember{}}
+	fullCfg := &msCfg{Name: t, Parts: 2, RF: 1, RetMs: 60000, RetBytes: 1 << 20, SegBytes: 4096, Config: [][2]string{{"cleanup.policy", "compact"}, {"x", "y"}}}
+	zeroCfg := &msCfg{Name: t, Config: [][2]string{}}
+	steps := [][]msOp{}
+	for i := range metas { // committed offset and its metadata
+		steps = append(steps, []msOp{{K: "co", Group: g, Topic: t, Part: p, N: offs[i], Meta: metas[i]}})
+	}
+	steps = append(steps,
+		[]msOp{{K: "uo", Topic: t, Part: p, N: 41}}, []msOp{{K: "uo", Topic: t, Part: p, N: -1}}, []msOp{{K: "uo", Topic: t, Part: p, N: 6}}, []msOp{{K: "uo", Topic: t, Part: p, N: 6}},
+		[]msOp{{K: "uc", C: fullCfg}}, []msOp{{K: "uc", C: zeroCfg}}, []msOp{{K: "uc", C: fullCfg}},
+		[]msOp{{K: "pg", G: fullGroup(3)}}, []msOp{{K: "pg", G: emptyGroup}}, []msOp{{K: "pg", G: fullGroup(0)}}, []msOp{{K: "dg", Group: g}}, []msOp{{K: "pg", G: fullGroup(4)}},
+		[]msOp{{K: "cp", Topic: t, N: 4}}, []msOp{{K: "cp", Topic: t, N: 4}}, []msOp{{K: "cp", Topic: t, N: 3}},
+		[]msOp{{K: "dt", Topic: t}}, []msOp{{K: "ct", Topic: t, N: 1, RF: 1}}, []msOp{{K: "co", Group: g, Topic: t, Part: p, N: 1, Meta: ""}})
+	// the families in a random order (a prefix of them), each step followed by the read-back
+	order := make([]int, len(steps))
+	for i := range order {
+		order[i] = i
+	}
+	if r.Chance(70) {
+		for i := len(order) - 1; i > 0; i-- {
+			j := r.Intn(i + 1)
+			order[i], order[j] = order[j], order[i]
+		}
+	}
+	n := r.Range(6, 12)
+	for _, k := range order[:n] {
+		ops = append(ops, steps[k]...)
+		reads()
+	}
+	return 1, ops
+}
